@@ -85,7 +85,7 @@ impl Engine for Cfgx {
                 },
                 Stage {
                     name: "redis-listeners".into(),
-                    cases: if thorough { 16 * 100 } else { 16 * 6 },
+                    cases: if thorough { 16 * 100 } else { 16 * 12 },
                     strategy: rds::case(true).prop_map(Case::Redis).boxed(),
                 },
             ]
